@@ -12,20 +12,64 @@ def helper_opaque(p):
     return p.startswith("parse::helpers::") or p.startswith("parse::unescape::") or p.startswith("parse::rule::")
 
 
-def action_term(f, n, nsyms):
-    """normalised outcomes of __action<n> with its symbol values named $0..$k:  list of (conds, term)"""
+def action_term(f, n, nsyms, spec=None):
+    """normalised outcomes of __action<n> with its symbol values named $0..$k:  list of (conds, term).
+    A helper called with the token text and otherwise only constants (`Literal::Int.parse(s)`, `radix(s, 16)`) is one
+    helper per constant tuple: it is shown as `helpers::<name>_<constants>!($k)` and recorded in `spec`
+    (name -> (path, argument template with None at the text position))."""
+    from tss import Interp
+    from norm import short_callee
     d = "parse::reval::__action%d" % n
     if d not in f.bodies:
         return None
     b = f.bodies[d]
     names = ["input"] + ["$%d" % i for i in range(b["arg_count"] - 1)]
     outs, it = evalsum.summarize_fn(f, d, arg_names=names, opaque=helper_opaque)
+    ren = {}
+    for c, r, s, rv in outs:
+        for e in s.events:
+            if e[0] != "call" or e[1] not in f.bodies or not helper_opaque(e[1]):
+                continue
+            shown = [show(norm(a)) for a in e[2]]
+            text = [i for i, a in enumerate(shown) if re.fullmatch(r"\$\d+\.1", a)]
+            consts = [i for i, a in enumerate(e[2]) if Interp.is_closed_literal(a)]
+            if len(text) != 1 or len(consts) + 1 != len(shown) or not consts:
+                continue
+            sc = short_callee(e[1])
+            mangled = re.sub(r"\W+", "_", sc[len("helpers::"):] if sc.startswith("helpers::") else sc) + "".join("_" + re.sub(r"\W+", "_", shown[i]) for i in consts)
+            for bang in ("", "!", "!err"):
+                ren["%s%s(%s)" % (sc, bang, ", ".join(shown))] = "helpers::%s%s(%s)" % (mangled, bang, shown[text[0]])
+            if spec is not None:
+                spec[mangled] = (e[1], tuple(None if i == text[0] else e[2][i] for i in range(len(shown))))
+
+    def fix(x):
+        for o, nw in ren.items():
+            x = x.replace(o, nw)
+        return re.sub(r"\$(\d+)\.1", r"$\1", x)
     res = []
     for c, r, s, rv in outs:
-        r = re.sub(r"\$(\d+)\.1", r"$\1", r)
-        c = tuple((re.sub(r"\$(\d+)\.1", r"$\1", a), b_) for a, b_ in c)
-        res.append((c, r))
+        res.append((tuple((fix(a), b_) for a, b_ in c), fix(r)))
     return sorted(res)
+
+
+def helper_summary(f, g, name, opaque=None):
+    """summary of the literal helper `name` as the actions call it, with the token text named `value`"""
+    from tss import Interp, State
+    sp = g.get("spec_helpers", {}).get(name)
+    if not sp:
+        path = "parse::helpers::" + name
+        if path not in f.bodies:
+            return None, None
+        outs, it = evalsum.summarize_fn(f, path, arg_names=["value"], opaque=opaque)
+        return path, outs
+    path, template = sp
+    it = Interp(f, opaque=opaque)
+    st = State()
+    args = [("sym", "value") if a is None else a for a in template]
+    outs = []
+    for s_, rv in it.run(path, args, st):
+        outs.append((tuple(sorted(set(norm_cond(c) for c in s_.conds))), show(norm(it.resolve(s_, rv))), s_, rv))
+    return path, outs
 
 
 def load(f):
@@ -38,8 +82,9 @@ def load(f):
         from framework import Inconclusive
         raise Inconclusive("the generated parser does not have the table-driven shape the extraction reads (%s)" % e)
     prods = []
+    g["spec_helpers"] = {}
     for (lhs, rhs), a in sorted(g["productions"].items(), key=lambda x: x[1]):
-        prods.append({"lhs": lhs, "rhs": list(rhs), "action": a, "term": action_term(f, a, len(rhs))})
+        prods.append({"lhs": lhs, "rhs": list(rhs), "action": a, "term": action_term(f, a, len(rhs), g["spec_helpers"])})
     g["prods"] = prods
     _cache[key] = g
     return g
